@@ -25,6 +25,10 @@ CHECKS = {
    text="Every obligation generated from the current source of ValueObj::try_{add,sub,mul,floordiv,mod,pow,gt,ge,lt,le,eq,ne,or}, From<i32>/From<bool> for ValueObj, checked_floordiv_i32/checked_floormod_i32 and Context::eval_unary_val is discharged by Verus for all Int/Nat/Bool operands (no overflow, no division by zero, result equals the Python value or is None); Float classes, try_div and the float helpers' zero-divisor behaviour are discharged by loop-free full-domain Kani harnesses.",
    note="Assumed: vstd's specs of checked_* integer ops and of Rust's truncating / and %; std contracts of i32/u64::checked_pow and checked_neg (wrappers); the value part of checked_truediv (IEEE quotient) and float_divmod (CPython transcription) - CBMC cannot decide full-domain f64 division/fmod; f64 powf/powi (try_pow Float classes not carried); Nat operands above 2**53 in int/int true division. The dispatch eval_const_expr -> eval_bin -> try_* is not under contract. Non-scalar arms (Str, List, Dict, Type) are R2-erased.",
    technique=TECH_V + " (class-copied contracts) + Kani/CBMC loop-free harnesses; counterexamples replayed on the real crate"),
+ "C06": dict(engine="kani", category="proof",
+   text="PARTIAL: the fast subtyping judgement on the fieldless built-in types (Obj, Never, Int, Nat, Ratio, Float, Complex, Bool, Str, NoneType, Code, Frame, Error, Inf, NegInf, Type, ClassType, TraitType, Patch, NotImplementedType, Ellipsis, Failure). For all pairs Context::cheap_supertype_of answers with certainty and Context::supertype_of equals it; the relation is reflexive; transitive over all triples (Failure excluded: it is deliberately both top and bottom); Never is below and Obj above every type and nothing else is; Bool <: Nat <: Int <: Ratio <: Float <: Complex holds strictly and the numeric classes are unrelated to the other value classes. Kani loop-free over the finite domain (complete).",
+   note="Not carried: unions, intersections, refinements (singleton/enum types), polymorphic containers, user classes and traits (structural_supertype_of / nominal_supertype_of: reaching them from these classes fails the harness), i.e. T <: (T or U), (T and U) <: T and 'enum type below its class' are outside. Arms of the table that bind erased payloads (Mono, Subr, Poly, FreeVar, ...) are R2-erased. Derived PartialEq on fieldless variants is structural.",
+   technique=TECH_K),
  "C11": dict(engine="kani", category="proof",
    text="PARTIAL: the operator precedence table itself. For all pairs of token kinds, TokenKind::precedence orders the operators exactly as the documented table (member access > ** > prefix > * / // % > + - > shifts > && > ^^ > || > ranges > comparisons > and > or; same row <=> same precedence), no binary operator of the table is right-associative, and opening brackets bind weaker than every operator. Kani loop-free over all token kinds (complete).",
    note="Not carried: the reduce loop in Parser::try_reduce_expr that consumes the table (a change of `>=` there is invisible to this check), Lexer::op_fix (minus before a literal), method calls and parentheses. The documented table is transcribed from the property statement.",
